@@ -110,6 +110,12 @@ CHECKS['C11'] = ('recognise',
   'Trusts: TLC; the independent .gro/.itp writers of harness/synth.py and the atom-number decoding of the files the harness wrote; species have pairwise disjoint residue signatures, consecutive residues differ in residue number.', 'DESIGN 3 C11')
 ENGINES['recognise'] = ('harness/drivers/recognise.py', 'Recognise.tla + MC_Recognise.tla + Trace_Recognise.tla')
 
+CHECKS['C04'] = ('xmap-calls',
+  'XMapCalls.tla: aliasing model of ExchangeMap.__call__ (construction molecules referenced by the map, results = new objects whose conformation is the uninterpreted image F(r, t, a) of the argument conformation under the construction-time snapshot, frames overwritten per call, rejected arguments change nothing); TLC checks ResultsAreImages, FramesOfLastCall, WriteFrame, RejectedChangesNothing, SnapFixed for every history of the bounds; every maximal history (sampled) and TLC-simulated histories of length 30 are replayed on a real ExchangeMap with the full abstract state compared after each operation',
+  'Histories of 5 (thorough 6) operations over {build, call on either argument or on the construction reference, five kinds of rejected argument (target, an earlier result, non-molecules, homologues with one atom more / less), coordinate mutation of any object incl. construction molecules and earlier results, residue-number mutation of arguments and reference}: 7.7e4 (1e6) states; replayed on four reference/target species (3-atom chain, two-residue tree, ring with tail, 9/23 atoms two residues), four scale factors: after every operation every live object must have bit-identical coordinates if the model says it is untouched, results must equal (1e-12 nm) what a FRESH map built from pristine files returns for F(r, t, a), carry the argument\'s residue numbers and the target\'s atom/residue names and size, be new objects; rejected arguments must raise TypeError; numpy\'s global random state must not move during a call.',
+  'Trusts: TLC; the fresh-map oracle (the property\'s own reference); residue numbers of arguments are varied on the coordinate side (gro_resid), as System does - Molecule.resids also rewrites the shared topology residue numbers, which the library treats as species identity (DESIGN 5, observation O1); generic conformations; equal residue counts of reference and target.', 'DESIGN 3 C04')
+ENGINES['xmap-calls'] = ('harness/drivers/xmapcalls.py', 'XMapCalls.tla + MC_XMapCalls.tla: exhaustive + simulated histories replayed with full state comparison and a fresh-map oracle')
+
 PENDING_REASON = 'check not built yet in this round (build in progress; see DESIGN.md Appendix B)'
 
 
